@@ -148,6 +148,14 @@ def objects(d):
     # a form without /Resources of its own (it uses the page's): one glyph with the page's /F1
     objs[20] = Stream({"Type": Name("XObject"), "Subtype": Name("Form"), "BBox": [0, 0, 300, 800]},
                       b"BT /F1 10 Tf 1 0 0 1 200 300 Tm <41> Tj ET")
+    objs[24] = Stream({}, b"% unused in this document\n")
+    if d == "dB":
+        # FormCycle: /Fm1 (object 20) paints /Fm2 (object 24); /Fm2 paints /Fm1 again AND itself.  Each paints one glyph.
+        fres = {"Font": {"F1": Ref(5)}, "XObject": {"Fm1": Ref(20), "Fm2": Ref(24)}}
+        objs[20] = Stream({"Type": Name("XObject"), "Subtype": Name("Form"), "BBox": [0, 0, 300, 800], "Resources": fres},
+                          b"BT /F1 10 Tf 1 0 0 1 200 300 Tm <41> Tj ET /Fm2 Do")
+        objs[24] = Stream({"Type": Name("XObject"), "Subtype": Name("Form"), "BBox": [0, 0, 300, 800], "Resources": dict(fres)},
+                          b"BT /F1 10 Tf 1 0 0 1 200 250 Tm <41> Tj ET /Fm1 Do /Fm2 Do")
     if d == "dA":
         objs[19] = Stream({}, tounicode_cmap([("bfchar", [(CID_H1, "T"), (CID_2, "U")])], codelen=2))
     else:
